@@ -117,12 +117,16 @@ def run(tier, seed):
                             problems.append('subject read %r, asserted %r' % (getattr(ar.name_id, 'text', None), name_id.text))
                         if ar.in_response_to != rid:
                             problems.append('InResponseTo read %r, sent %r' % (ar.in_response_to, rid))
-                        if ar.issuer() != IDP_ID:
-                            problems.append('issuer read %r' % (ar.issuer(),))
-                        info = ar.authn_info()
+                        try:
+                            iss, info, noa = ar.issuer(), ar.authn_info(), ar.session_info().get('not_on_or_after')
+                        except Exception as e:
+                            violations.append({'name': 'bounded[e2e-roundtrip]', 'case': label,
+                                               'what': 'the accepted response could not be read by the application: %r' % (e,)})
+                            continue
+                        if iss != IDP_ID:
+                            problems.append('issuer read %r' % (iss,))
                         if not info or info[0][0] != ctx:
                             problems.append('authentication context read %r, asserted %r' % (info, ctx))
-                        noa = ar.session_info().get('not_on_or_after')
                         import time as _t
                         if not noa or abs(noa - (_t.time() + minutes * 60)) > 120:
                             problems.append('session expiry read %r, the policy lifetime is %d min' % (noa, minutes))
